@@ -183,6 +183,19 @@ def t_unindent_context(rng, chs):
     return out if changed else None
 
 
+def t_space_after_marker(rng, chs):
+    """'-foo()' written '- foo()': blanks between the marker and the code are layout"""
+    out, changed = [], False
+    for ch in chs:
+        body = []
+        for l in ch["body"]:
+            if l[:1] in "-+" and len(l) > 1 and l[1] not in " \t" and not re.search(r"[\"'`]", l):
+                l = l[0] + rng.choice([" ", "  ", "\t"]) + l[1:]; changed = True
+            body.append(l)
+        out.append(dict(ch, body=body))
+    return out if changed else None
+
+
 def t_rewrap(rng, chs):
     """break lines after commas inside call argument lists (never inside quotes), same on every line"""
     out = []
@@ -264,12 +277,21 @@ EXTRA += [
      "inputs": {"t.go": b"package x\n\nfunc do() {\n\tpre1()\n\tpre2()\n\ta()\n\tpost()\n}\n"}},
     {"name": "x_leading_dots_ctx", "patches": [("p.patch", b"@@\n@@\n ...\n a()\n-post()\n ...\n+done()\n")],
      "inputs": {"t.go": b"package x\n\nfunc do() {\n\tpre1()\n\ta()\n\tpost()\n\tz()\n}\n"}},
+    {"name": "x_minus_dots_first", "patches": [("p.patch", b"@@\n@@\n-...\n-foo()\n+...\n+bar()\n")],
+     "inputs": {"t.go": b"package x\n\nfunc do() {\n\tpre1()\n\tpre2()\n\tfoo()\n\tpost()\n}\n"}},
+    {"name": "x_minus_dots_only", "patches": [("p.patch", b"@@\n@@\n-...\n foo()\n+done()\n")],
+     "inputs": {"t.go": b"package x\n\nfunc do() {\n\tpre1()\n\tpre2()\n\tfoo()\n\tpost()\n}\n"}},
+    # a name that is a metavariable in one change and ordinary code in the next
+    {"name": "x_name_reused", "patches": [("p.patch", b"@@\nvar err identifier\n@@\n-check(err)\n+verify(err)\n\n@@\n@@\n-log.Print(err)\n+log.Fatal(err)\n")],
+     "inputs": {"t.go": b"package x\n\nfunc do() {\n\tcheck(cause)\n\tlog.Print(cause)\n\tlog.Print(err)\n\tcheck(err)\n}\n"}},
+    {"name": "x_name_reused_expr", "patches": [("p.patch", b"@@\nvar v expression\n@@\n-wrap(v)\n+wrapped(v)\n\n@@\nvar w expression\n@@\n-pair(v, w)\n+paired(w)\n")],
+     "inputs": {"t.go": b"package x\n\nfunc do() {\n\twrap(1)\n\tpair(v, 2)\n\tpair(u, 3)\n}\n"}},
     {"name": "x_meta_one_line", "patches": [("p.patch", b"@@\nvar fn identifier; var x expression; var y expression\n@@\n-fn(x, y)\n+fn(y, x)\n")],
      "inputs": {"t.go": b"package x\n\nfunc do() {\n\tcall(1, 2)\n\tother(a, b)\n}\n"}},
 ]
 
 TRANSFORMS = [("comments", t_comments), ("blank", t_blank), ("name", t_name), ("rename", t_rename), ("regroup", t_regroup),
-              ("respace", t_respace), ("unindent-context", t_unindent_context), ("rewrap", t_rewrap), ("context-pair", t_context_pair), ("widen", t_widen)]
+              ("respace", t_respace), ("unindent-context", t_unindent_context), ("space-after-marker", t_space_after_marker), ("rewrap", t_rewrap), ("context-pair", t_context_pair), ("widen", t_widen)]
 
 
 def main():
